@@ -63,6 +63,10 @@ CLAIMED.update({
  'C08': dict(text='A unified restart file of three report steps with symbolic, strictly increasing SEQNUM values is produced by the real writer on an in-memory file system; the real ERst (EclFile::load + initUnified) indexes it; for a symbolic requested step the real restartStepWritePosition/seekPosition and OutputStream::Restart::openUnified/openExisting (truncate + append) run and the result is re-read: the write position is the header of the first step >= s (or append), earlier steps are preserved byte for byte, the written step is last, the step list stays strictly increasing - one inductive step from any valid file. Truncation: a file cut at every byte offset either reads back exactly or raises an error (found and fixed: the readers branched on uninitialised control words).',
              note='file system, std::fstream family, std::filesystem::path/resize_file and isFormatted are models; 3 steps x 3 arrays, SEQNUM gaps 1..3; formatted restart files and EclipseIO\'s step selection outside', design='4/C08'),
 })
+CLAIMED.update({
+ 'C10': dict(text='The legacy reader\'s per-element access path ESmry::get -> loadData(vectList) runs on an in-memory summary data file with more than 1000 vectors: unformatted PARAMS records written by the real writer (probed value: arbitrary bit pattern) and formatted PARAMS text from a reference formatter of the published layout; for positions at the record-block boundaries and ends, in two ministeps, the value read must be the value written - i.e. the seek arithmetic equals the on-disk layout. (Found and fixed: strtof on an unterminated buffer in the formatted branch.)',
+             note='ESmry object laid out by the harness; SMSPEC parsing, restart chains, ESMRY/ExtESmry and make_esmry_file, whole-PARAMS loadData() outside; positions are probed one path each (vector counts 1001/2500; thorough more)', design='4/C10'),
+})
 NA = {
 }
 ALL = ['C%02d' % i for i in range(1, 21)]
